@@ -61,7 +61,7 @@ func encodeNBNSName(name string) []byte {
 	// Name len = 16 * 2 bytes format
 	buffer.Write([]byte{netbiosMaxNameLen * 2})
 
-	for i := range name {
+	for i := 0; i < len(name); i++ { // bytes, not runes: every octet of the name yields two characters
 		var store [2]byte
 		store[0] = 'A' + (name[i] >> 4)
 		store[1] = 'A' + (name[i] & 0x0f)
